@@ -31,6 +31,8 @@ Inductive bclass :=
   | BEmptyList     (* "docs" / "ids" empty                                                    *)
   | BBadElem       (* a document that is not an object / an id refused by validate_ids        *)
   | BNoDocs        (* /add: no document at all (empty body, blank lines)                      *)
+  | BBadUtf8       (* /add: a line that is not valid UTF-8 is reached (read_line fails) before
+                      any line the handler refuses                                            *)
   | BZeroLimit.    (* /search: limit = 0                                                      *)
 
 Inductive size :=
@@ -103,6 +105,7 @@ Definition handler (r : route) (q : request) : response :=
       else match q_size q, q_body q with
            | SzSlow, _ => err K_timeout
            | SzStreamed, _ => err K_read_body
+           | _, BBadUtf8 => err K_read_body
            | _, BUnparsable => err K_invalid_document
            | _, BBadElem => err K_invalid_document
            | _, BNoDocs => Answer 200 (SDoc r)
@@ -187,7 +190,7 @@ Definition respond (q : request) : response :=
 Definition body_applicable (t : target) (b : bclass) : bool :=
   match t, b with
   | Known R_init, (BOk | BUnparsable) => true
-  | Known R_add, (BOk | BUnparsable | BBadElem | BNoDocs) => true
+  | Known R_add, (BOk | BUnparsable | BBadElem | BNoDocs | BBadUtf8) => true
   | Known R_bulk, (BOk | BUnparsable | BEmptyList | BBadElem) => true
   | Known R_delete, (BOk | BUnparsable | BEmptyList | BBadElem) => true
   | Known R_search, (BOk | BUnparsable | BZeroLimit) => true
@@ -251,7 +254,7 @@ Definition invalid_input (q : request) : bool :=
   | None => true
   | Some _ =>
       match q_body q with
-      | BUnparsable | BEmptyList | BBadElem | BZeroLimit => true
+      | BUnparsable | BEmptyList | BBadElem | BZeroLimit | BBadUtf8 => true
       | _ => false
       end
   end.
